@@ -10,39 +10,54 @@ Theorem C09_go_line_of_anchored : forall ls i id t,
   ok ls -> nth_error ls i = Some (Code id (Some t)) -> go_line_of ls i = Some t.
 Proof. exact ok_sound. Qed.
 
-(* THE PROPERTY, for every package (any number of functions and methods, any nesting of blocks, if/else
-   chains, for/range/for-phrase loops, switch/type switch/select clauses, labels, function literals, doc
-   comments), any fuel: whenever
-     - function names are distinct,
-     - every function body refers only to functions declared earlier or to itself (backward_refs), and
-       every doc comment is adjacent to its declaration,
-   then in the Go text emitted for every function, the line holding the first code of a source statement
-   (and the header line of the function) is attributed by Go to the XGo file and line of that statement. *)
+(* THE PROPERTY, for every package (any number of functions and methods in any order, any references between
+   them — a function body may be compiled lazily in the middle of the statement that first refers to it —, any
+   nesting of blocks, if/else chains, for/range/for-phrase loops, switch/type switch/select clauses, labels,
+   function literals and lambdas), any fuel: whenever every doc comment is adjacent to its declaration (wf_prog),
+   in the Go text emitted for every function the line holding the first code of a source statement, and the header
+   line of the function, is attributed by Go's //line semantics to the XGo file and line of that statement. *)
 Theorem C09_directive_maps_first_line : forall pr fuel out g ls i id t,
-  nodupb (func_names pr) = true -> backward_refs pr = true ->
+  wf_prog pr = true ->
   compile_prog fuel pr = Ok out -> In (g, ls) out ->
   nth_error ls i = Some (Code id (Some t)) -> go_line_of ls i = Some t.
 Proof. exact directive_maps_first_line. Qed.
 
-(* the same, at the level of one statement list compiled in any state in which none of the functions it
-   refers to is still unloaded: the emitted lines are anchored whatever cb.comments held before *)
+(* the same for one statement list compiled in ANY compiler state (whatever cb.comments holds, whichever
+   functions are still unloaded): the emitted lines are anchored *)
 Theorem C09_stmts_anchored : forall pr fuel b st ls st',
-  compile_stmts pr fuel b st = Ok (ls, st') ->
-  noload (unl st) (refs_stmts b) = true -> wf_stmts b = true -> ok ls.
-Proof. intros pr fuel b st ls st' H Hn Hw. destruct (P_any pr fuel) as (_ & Pss & _). eapply Pss; eauto. Qed.
+  wf_prog pr = true -> wf_stmts b = true -> all_ok (outf st) ->
+  compile_stmts pr fuel b st = Ok (ls, st') -> ok ls.
+Proof.
+  intros pr fuel b st ls st' Hwf Hb Ha H. destruct (P_any pr Hwf fuel) as (_ & Pss & _).
+  destruct (Pss _ _ _ _ H Hb Ha) as [A _]. exact A.
+Qed.
 
-(* WITHOUT the backward_refs guard the faithful model REFUTES the property: the first reference to a
-   function declared later compiles that function's body in the middle of the referencing statement
-   (loadSymbol -> loadFunc -> loadFuncBody -> cb.SetComments(nil)) and nothing restores cb.comments, so the
-   referencing statement is emitted with the directive of the LAST statement of the callee (or with none).
-   Witness = the XGo file
+(* not vacuous: every positioned statement of a statement list DOES get a tagged line, the tagged lines come in
+   source order, and no other line is tagged *)
+Theorem C09_tags_exact : forall pr fuel b st ls st',
+  compile_stmts pr fuel b st = Ok (ls, st') -> line_tags ls = somes (tags_stmts b).
+Proof. exact stmts_tags_exact. Qed.
+
+Theorem C09_every_statement_emitted : forall pr fuel b st ls st' t,
+  compile_stmts pr fuel b st = Ok (ls, st') ->
+  (In (Some t) (tags_stmts b) <-> exists i id, nth_error ls i = Some (Code id (Some t))).
+Proof. exact stmts_emitted. Qed.
+
+(* termination: with distinct function names the model needs no more than prog_fuel (the summed sizes of the
+   declarations), however the lazy loading nests; and it never panics *)
+Theorem C09_compile_total : forall pr,
+  nodupb (func_names pr) = true -> exists out, compile_prog (prog_fuel pr) pr = Ok out.
+Proof. exact compile_prog_total. Qed.
+
+(* The former defect (fixed in /repo by 8b20189: loadFuncBody restores the pending comment): the first reference
+   to a function declared later.  The package
        11 func F() {
        12     mark(1)
-       13     foo(mark(2))      <- emitted under "//line f:20:1"
+       13     foo(mark(2))
        14     mark(3) }
        19 func foo(a int) {
        20     mark(5) }
-   (replayed on the implementation by the check: known finding C09 fwdref). *)
+   now maps line 13 to line 13 (before the repair the faithful model reported line 20). *)
 Definition witness_fwd : prog :=
   [ DFunc 0 (Some (0, 5)) None false 0 false (SCons (SSimple 0 (Some (0, 6)) PNil) SNil);
     DFunc 1 (Some (0, 11)) None false 0 false
@@ -51,22 +66,33 @@ Definition witness_fwd : prog :=
       (SCons (SSimple 3 (Some (0, 14)) (PRef 0 PNil)) SNil)));
     DFunc 2 (Some (0, 19)) None false 0 false (SCons (SSimple 5 (Some (0, 20)) (PRef 0 PNil)) SNil) ]%N.
 
-Theorem C09_directive_maps_first_line_refuted :
+Example C09_forward_reference :
+  exists out ls, (compile_prog 20 witness_fwd = Ok out) /\ (In (1%N, ls) out) /\ (predict ls 2 = Some (0%N, 13%N)) /\
+                 (map fst out = [0%N; 2%N; 1%N]).      (* foo is emitted while F is being compiled *)
+Proof. eexists. eexists. split; [vm_compute; reflexivity|]. split; [right; right; left; reflexivity|]. vm_compute. auto. Qed.
+
+(* WITHOUT the guard the property fails: a doc comment that is not adjacent.  gogen prints a block comment that is the
+   doc of a LOCAL declaration on the same line as the declaration, i.e. the declaration comes docskip = (lines of
+   the comment - 1) lines after the directive, one line early:
+       28 /* doc of z
+       29    second line */
+       30 var z = mark(2)        is attributed to line 29
+   (known finding C09 blockdoc; the printer is gogen's, outside /repo). *)
+Definition witness_blockdoc : prog :=
+  [ DFunc 0 (Some (0, 26)) None false 0 false
+      (SCons (SDecl 2 (Some (0, 30)) (Some (0, 28)) true 1 PNil) SNil) ]%N.
+
+Theorem C09_directive_maps_first_line_refuted_without_guard :
   exists pr fuel out g ls i id t,
-    nodupb (func_names pr) = true /\ compile_prog fuel pr = Ok out /\ In (g, ls) out /\
+    wf_prog pr = false /\ compile_prog fuel pr = Ok out /\ In (g, ls) out /\
     nth_error ls i = Some (Code id (Some t)) /\ go_line_of ls i <> Some t.
 Proof.
-  exists witness_fwd, 20%nat.
-  eexists. exists 1%N. eexists. exists 5%nat, 2%N, (0, 13)%N.
+  exists witness_blockdoc, 20%nat.
+  eexists. exists 0%N. eexists. exists 4%nat, 2%N, (0, 30)%N.
   split; [vm_compute; reflexivity|]. split; [vm_compute; reflexivity|].
-  split; [right; right; left; reflexivity|]. split; [vm_compute; reflexivity|].
+  split; [left; reflexivity|]. split; [vm_compute; reflexivity|].
   vm_compute. discriminate.
 Qed.
-
-(* what Go reports for that line in the witness: line 20 of file 0 *)
-Example C09_witness_reports :
-  exists out ls, compile_prog 20 witness_fwd = Ok out /\ In (1%N, ls) out /\ predict ls 2 = Some (0, 20)%N.
-Proof. eexists. eexists. split; [vm_compute; reflexivity|]. split; [right; right; left; reflexivity|]. vm_compute. reflexivity. Qed.
 
 (* non-vacuity of the theorem: a package that satisfies the guards, with nested control flow, a doc
    comment, a function literal, a switch with fallthrough, and a method; its output has tagged lines *)
@@ -85,7 +111,7 @@ Definition sample : prog :=
        SNil))));
     DMethod 2 (Some (1, 5)) None false 0 (SCons (SSimple 14 (Some (1, 6)) (PRef 1 (PRef 0 PNil))) SNil) ]%N.
 
-Example C09_sample_guards : nodupb (func_names sample) = true /\ backward_refs sample = true.
+Example C09_sample_guards : nodupb (func_names sample) = true /\ wf_prog sample = true.
 Proof. vm_compute. auto. Qed.
 
 Example C09_sample_runs :
@@ -103,4 +129,7 @@ Qed.
 Print Assumptions C09_go_line_of_anchored.
 Print Assumptions C09_directive_maps_first_line.
 Print Assumptions C09_stmts_anchored.
-Print Assumptions C09_directive_maps_first_line_refuted.
+Print Assumptions C09_tags_exact.
+Print Assumptions C09_every_statement_emitted.
+Print Assumptions C09_compile_total.
+Print Assumptions C09_directive_maps_first_line_refuted_without_guard.
